@@ -195,13 +195,16 @@ def norm_work_input(inp):
 
 
 def success_data(src, inp):
-    out = {"tag": ANYSTR if wild(inp.get("tag")) else "%s(%s)" % (src, inp.get("tag"))}
-    if isinstance(inp.get("n"), int) and not isinstance(inp.get("n"), bool):
-        out["n"] = inp["n"] + 1
-    elif wild(inp.get("n")):
+    """Pattern of the scripted step's success output for an input *pattern* (echoed fields keep their freedom)."""
+    tag = inp.get("tag")
+    out = {"tag": ANYSTR if wild(tag) else "%s(%s)" % (src, tag)}
+    n = inp.get("n")
+    if isinstance(n, int) and not isinstance(n, bool):
+        out["n"] = n + 1
+    elif wild(n):
         out["n"] = ANYVAL
     for k in ("f", "b", "l", "o", "a"):
-        if k in inp and inp[k] is not None:
+        if k in inp and inp[k] is not None and inp[k] is not ABSENT:
             out[k] = inp[k]
     return out
 
@@ -490,7 +493,7 @@ class RefSem:
             st.set_all(PLUGIN_OUTS, IMPOSSIBLE)
             return st
         if outcome == "success":
-            st.out[("outputs", "success")] = (AVAIL, es.get("data") if es.get("data") is not None else success_data(s.src, concrete))
+            st.out[("outputs", "success")] = (AVAIL, es.get("data") if es.get("data") is not None else success_data(s.src, st.exec_input))
         elif outcome == "error":
             st.out[("outputs", "error")] = (AVAIL, {"reason": es.get("msg") or ANYSTR})
         elif outcome == "alt":
